@@ -45,6 +45,7 @@ type pipelineStateMachine struct {
 	completedCallbackFn func(err error)          // pipeline execute completed will invoke
 	mutex               sync.Mutex
 	completed           atomic.Bool
+	firstErr            error // first error reported by any stage (guarded by mutex)
 
 	tracker *trackerpkg.StageTracker
 }
@@ -93,6 +94,10 @@ func (sm *pipelineStateMachine) executeStage(parentStageID, stageID string, stag
 // completeStage tracks stage complete execution state.
 func (sm *pipelineStateMachine) completeStage(stageID string, err error) {
 	sm.mutex.Lock()
+	if err != nil && sm.firstErr == nil {
+		// remember the failure, the pipeline may be completed by another(successful) stage
+		sm.firstErr = err
+	}
 	if s, ok := sm.stages[stageID]; ok {
 		var errMsg string
 		if err != nil {
@@ -115,6 +120,12 @@ func (sm *pipelineStateMachine) completeStage(stageID string, err error) {
 	sm.mutex.Unlock()
 
 	if sm.pending.Dec() == 0 {
+		if err == nil {
+			// last stage is successful, but an earlier stage may be failure
+			sm.mutex.Lock()
+			err = sm.firstErr
+			sm.mutex.Unlock()
+		}
 		// check if all stages execute completed
 		sm.complete(err)
 	}
